@@ -13,6 +13,7 @@ from (call number, entries offered) to `(sent, errno)` — that respects the sen
 `sent ≤ offered` (`KernOK`).  Scripts of outcomes are the special case `scriptKern` (see `script_kernel_ok`).
 -/
 import Nebula.Lemmas.WritebatchRun
+import Nebula.Lemmas.WritebatchProgress
 
 namespace Nebula.Props.C26
 open Nebula.Writebatch Nebula.Lemmas.Writebatch List
@@ -78,6 +79,23 @@ theorem no_overrun (c : Cfg δ) (kern : Nat → Nat → Outcome) (hk : KernOK ke
     (writeBatch c kern pk gso).overrun = false :=
   (run_spec c kern hk pk gso 0 0 (Nat.zero_le _)).2.2.2.2
 
+/-- The error "sendmmsg made no progress" is returned exactly when a `sendFn` call sent nothing and reported
+no errno, that call is the last one, and no earlier call was of that kind (for every kernel, contract or not). -/
+theorem no_progress_error (c : Cfg δ) (kern : Nat → Nat → Outcome) (pk : List (Pkt δ)) (gso : Bool) :
+    let r := writeBatch c kern pk gso
+    (r.err = true → ∃ init last, r.calls = init ++ [last] ∧ Stuck last ∧ ∀ x ∈ init, ¬ Stuck x) ∧
+    (r.err = false → ∀ x ∈ r.calls, ¬ Stuck x) :=
+  run_stuck c kern pk gso 0 0
+
+/-- Progress / termination, made explicit: whatever the kernel answers (contract or not), `WriteBatch`
+returns after at most `2·len(bufs) + 1` `sendFn` calls — `len(bufs)` without GSO.  (That the model is a
+total function is itself the termination proof: measure = (GSO flag, remaining packets), entries left.) -/
+theorem terminates (c : Cfg δ) (kern : Nat → Nat → Outcome) (pk : List (Pkt δ)) (gso : Bool) :
+    (writeBatch c kern pk gso).calls.length ≤ (if gso then 2 * pk.length + 1 else pk.length) := by
+  have h := run_calls c kern pk gso 0 0 (Nat.zero_le _)
+  simp only [writeBatch]
+  split <;> simp_all <;> omega
+
 /-- every scripted kernel (any list of outcomes, any `sent` values) satisfies the contract — the
 hypothesis `KernOK` of the theorems above is satisfiable, by every script. -/
 theorem script_kernel_ok (script : List Outcome) : KernOK (scriptKern script) := by
@@ -86,6 +104,13 @@ theorem script_kernel_ok (script : List Outcome) : KernOK (scriptKern script) :=
   split
   · simp only; split <;> omega
   · simp
+
+-- a stuck kernel: the first call sends nothing and reports nothing
+example :
+    let r := writeBatch (δ := Nat) { n := 2, maxSeg := 2, routable := fun _ => true }
+      (scriptKern [⟨0, .none⟩]) [⟨5, 0⟩] true
+    r.err = true ∧ r.written = 0 ∧ r.calls.length = 1 := by
+  decide +kernel
 
 -- a concrete faulty run: 3 equal datagrams to one destination, scratch 2, at most 2 segments per run;
 -- the kernel rejects the offloaded run with EIO, so GSO is disabled and the run replayed as single datagrams
